@@ -114,7 +114,9 @@ fn compare(ctx: &Ctx, who: &str, t: &Table, schema: Option<SchemaRef>, batches: 
     let mut rows: Vec<Row> = Vec::new();
     for (i, b) in batches.iter().enumerate() {
         if let Err(e) = gen::validate_batch(b) {
-            bail_v!(ctx, "invalid_array", &format!("{who}/batch"), "batch {i} read back invalid: {e}");
+            // one failure has a discriminating key of its own (known finding, DESIGN 11.6)
+            let key = if e.contains("contains nulls not present in parent") { format!("{who}/batch.non_nullable_child_under_null_parent") } else { format!("{who}/batch") };
+            bail_v!(ctx, "invalid_array", &key, "batch {i} read back invalid: {e}");
         }
         if b.num_rows() > batch_size.max(1) {
             bail_v!(ctx, "batch_too_large", &format!("{who}/batch"), "batch {i} has {} rows, batch size {batch_size}", b.num_rows());
@@ -336,8 +338,8 @@ fn main() {
     simcore::main_with(
         "C05",
         &[
-            Scenario { name: "serial", runs_quick: 30000, runs_thorough: 1_500_000, f: serial },
-            Scenario { name: "parallel", runs_quick: 25000, runs_thorough: 1_200_000, f: parallel },
+            Scenario { name: "serial", runs_quick: 110000, runs_thorough: 4_000_000, f: serial },
+            Scenario { name: "parallel", runs_quick: 90000, runs_thorough: 3_000_000, f: parallel },
             Scenario { name: "zero_width", runs_quick: 300, runs_thorough: 3000, f: zero_width_types },
         ],
     );
